@@ -86,3 +86,20 @@ Example dkg_example :
   run_party 3 2 1 5 [ES 2 7; ES 3 9; EC 2 32; EC 3 43; ER 2 33; ER 3 43] = (VErr, [2; 3]%nat) /\
   run_party 3 2 1 5 [ES 2 7; ES 3 9; EC 2 32; ER 2 32; ER 3 43; EX] = (VErr, [2]%nat).
 Proof. vm_compute. repeat split; reflexivity. Qed.
+
+(* Evaluation points are RANKS.  KeyGen gives the party of rank i (1-based position in the session's participant list)
+   the value p(i) of every dealt polynomial, assembleThresholdPublicKey interpolates at ranks, and bls.Verifier.Init maps a
+   signer's identifier to its rank (parties2EvalPoints[p] = i + 1).  With participants {1,2,4} the party with identifier 4
+   has rank 3.  Interpolating its partial signature at the identifier instead gives a wrong value: p = 5 + 3x, shares
+   8, 11, 14 at ranks 1, 2, 3; signers {1,4} = ranks {1,3}. *)
+Definition combine2 (s1 s2 : Z) (x1 x2 : Z) : outcome Z :=
+  match lagrange_coefficient x1 [x1; x2], lagrange_coefficient x2 [x1; x2] with
+  | Ok l1, Ok l2 => Ok (((s1 * l1) mod r + (s2 * l2) mod r) mod r)
+  | _, _ => Panic
+  end.
+
+Lemma identifier_points_refuted :
+  gen_shares [5; 3] 3 = [8; 11; 14] /\
+  combine2 8 14 1 3 = Ok 5 /\          (* at ranks 1 and 3: the secret *)
+  combine2 8 14 1 4 = Ok 6.            (* at identifiers 1 and 4: not the secret *)
+Proof. vm_compute. repeat split; reflexivity. Qed.
